@@ -26,6 +26,10 @@ var (
 
 	// ErrUnsupportedGeometry is returned when geometry type is not supported by this lib.
 	ErrUnsupportedGeometry = errors.New("wkb: unsupported geometry")
+
+	// ErrNestingTooDeep is returned when geometry collections are nested
+	// more than 10000 deep.
+	ErrNestingTooDeep = errors.New("wkb: geometry collections nested too deep")
 )
 
 var commonErrorMap = map[error]error{
@@ -34,6 +38,7 @@ var commonErrorMap = map[error]error{
 	wkbcommon.ErrNotWKBHeader:        ErrNotEWKB,
 	wkbcommon.ErrIncorrectGeometry:   ErrIncorrectGeometry,
 	wkbcommon.ErrUnsupportedGeometry: ErrUnsupportedGeometry,
+	wkbcommon.ErrNestingTooDeep:      ErrNestingTooDeep,
 }
 
 func mapCommonError(err error) error {
